@@ -411,7 +411,7 @@ func TestVerif_C08(t *testing.T) {
 }
 
 type verifC08Combo struct {
-	typ              restic.BlobType
+	typ               restic.BlobType
 	off, length, ulen uint
 }
 
